@@ -11,6 +11,7 @@ pub mod c14;
 pub mod c15;
 pub mod c16;
 pub mod c19;
+pub mod c20;
 pub mod drv;
 pub mod qh;
 
@@ -30,6 +31,7 @@ pub fn run(ctx: &Ctx) -> Option<Report> {
         "C15" => c15::run(ctx),
         "C16" => c16::run(ctx),
         "C19" => c19::run(ctx),
+        "C20" => c20::run(ctx),
         _ => return None,
     })
 }
@@ -47,6 +49,7 @@ pub fn replay(id: &str, engine: &str, case: &Value) -> Result<(), String> {
         "C15" => c15::replay(engine, case),
         "C16" => c16::replay(engine, case),
         "C19" => c19::replay(engine, case),
+        "C20" => c20::replay(engine, case),
         _ => Err(format!("unknown property {}", id)),
     }
 }
